@@ -163,3 +163,16 @@ def read_ndjson(path):
                 v = json.loads(v)
             out.append(v)
     return out
+
+
+def vacuity_guard(module, cfg_text, actions, timeout=3000):
+    """Re-run a configuration with -coverage 1 and insist that every named action was taken at
+    least once (an action never taken means the invariants were never exercised on it)."""
+    text = "\n".join(l for l in cfg_text.splitlines() if not l.startswith("ACTION_CONSTRAINT")) + "\n"
+    text = text.replace('"@OUT:edges.ndjson@"', '""')
+    res = run_tlc(module, text, coverage=True, timeout=timeout, workers=8)
+    cov = res.get("coverage", {})
+    missing = [a for a in actions if cov.get(a, (0, 0))[1] == 0]
+    if missing:
+        raise MachineryError(f"vacuity guard: actions never taken in {module}: {missing}")
+    return {a: cov[a][1] for a in actions}
